@@ -4,6 +4,8 @@ import SqlProofs.StripwsSpec
 import SqlProofs.ReindentBreaks
 import SqlProofs.StripwsFixed
 import SqlProofs.StripwsFixedTree
+import SqlProofs.ReindentLift
+import SqlProofs.ReindentLiftCase
 /-!
 # C10 — requested layout normal forms are actually achieved
 
@@ -58,5 +60,18 @@ theorem strip_whitespace_fixed_point : type_of% @Sql.stripWhitespace_fixed_point
 SAME tree changes nothing — the second `format()` differs only because re-lexing turns the blank (a Newline inside the Comment group) into a
 direct child of the parenthesis -/
 theorem kf_c10_5_is_a_relexing_effect : type_of% @Sql.kf5_tree_fixed_but_blank_before_close := @Sql.kf5_tree_fixed_but_blank_before_close
+
+/-- **reindent clause, whole output tree** (SqlProofs/ReindentLift*.lean): `ReindentFilter.process` on a statement whose tree satisfies the
+decidable, option-independent side conditions `liftOK`: in the returned tree, at EVERY nesting level the filter looks into (parentheses, CASE,
+identifier lists, function arguments, WHERE — exempt are only sub-trees it never enters: Values, a Where without direct WHERE child, a Parenthesis
+without direct `(`), every child `_next_token` selects (the model's split words, BETWEEN…AND excluded by the automaton) is directly preceded by a
+whitespace leaf whose value starts with a line break, and so is the WHERE keyword of every Where group — for every option set, filter state,
+`_last_stmt` and recursion budget.  `liftOK`: (1) no selected keyword directly after a child whose text ends in a line break (a comment line);
+(2) vacuous on parsed trees; (3) no split keyword as an ITEM of an IdentifierList — the real code fails exactly there (KF-C10-8:
+`format('a, from t', reindent=True)` leaves FROM on the first line); (4) CASE needs nothing beyond (1) (`case_break_targets_are_when_else`). -/
+theorem reindent_clause_whole_tree : type_of% @Sql.reindent_statement_lift := @Sql.reindent_statement_lift
+theorem reindent_clause_whole_tree_on_domain : type_of% @Sql.reindent_statement_lift_safe := @Sql.reindent_statement_lift_safe
+theorem reindent_clause_invariant_every_node : type_of% @Sql.rProcess_lift := @Sql.rProcess_lift
+theorem case_break_targets_are_when_else : type_of% @Sql.caseTargetsOK_true := @Sql.caseTargetsOK_true
 
 end Sql.C10
